@@ -14,9 +14,15 @@ RULE = ("(translator) the 16 update expressions of the current strapdown_imu.py 
         "identities are re-proved by the kernel (field_simp/ring) for all inputs with |q|^2 != 0; (correspondence) the compiled Python model "
         "(CSE on and off) is evaluated at seeded rational points with NON-unit orientation and calibration quaternions and compared, by "
         "name, with an independent exact implementation of the kinematic specification and with the Lean by-name model of C01; distinct by "
-        "(cse, point); non-trivial = both quaternions non-unit and all gyro/accelerometer/bias components non-zero")
+        "(cse, point); non-trivial = both quaternions non-unit and all gyro/accelerometer/bias components non-zero; (reused vectors) one State "
+        "and one Control object per compiled model are passed to model() repeatedly with their public .data column overwritten in place "
+        "between the calls (new IMU sample into the same Control, orientation rescaled / velocity bumped in the same State, a Control() "
+        "filled through .data before its first use): every call must return the kinematics of the values the vectors hold at that call")
 NOTE = ["symbols are renamed to Lean identifiers by a fixed table; sympy Float 0.5 is translated as the exact rational 1/2",
-        "every divisor in the model must be a rational multiple of |ori (x) cori|^2 - emitted as a lemma and checked by `ring`"]
+        "every divisor in the model must be a rational multiple of |ori (x) cori|^2 - emitted as a lemma and checked by `ring`",
+        "reused-vector stream: fixed dyadic samples (exact in binary64), the oracle is spec() of the vectors' contents read back through "
+        ".data immediately before each call; counters reused_vector_call / control_overwritten_in_place / state_edited_in_place / "
+        "control_filled_before_first_use"]
 PARTIAL = ["sympy's Quaternion algebra / integrate are not trusted: their output is what gets verified"]
 
 
@@ -47,6 +53,75 @@ def spec(pt):
         out[k] = ori[i] + dq[i] * dt / 2
     return out
 
+# fixed dyadic samples (exact in binary64): orientation non-unit, every gyro / accelerometer component non-zero and different per sample
+_S0 = {"oriw": F(5, 4), "orix": F(-1, 2), "oriy": F(3, 4), "oriz": F(1, 4), "x1": F(1), "x2": F(-2), "x3": F(1, 2),
+       "v1": F(3, 8), "v2": F(1, 8), "v3": F(-1, 4), "a1": F(1, 4), "a2": F(-3, 8), "a3": F(5, 8), "yawr": F(1, 8), "pitchr": F(-1, 2),
+       "rollr": F(3, 4)}
+_S1 = {"oriw": F(-3, 4), "orix": F(7, 8), "oriy": F(1, 2), "oriz": F(-5, 4), "x1": F(-3, 2), "x2": F(1, 4), "x3": F(2),
+       "v1": F(-5, 8), "v2": F(3, 4), "v3": F(1, 2), "a1": F(-7, 8), "a2": F(1, 2), "a3": F(-1, 4), "yawr": F(-3, 8), "pitchr": F(5, 8),
+       "rollr": F(-1, 8)}
+_U = [{"w1": F(3, 8), "w2": F(-1, 4), "w3": F(1, 2), "f1": F(1, 2), "f2": F(-9, 8), "f3": F(19, 2)},
+      {"w1": F(-3, 4), "w2": F(1, 8), "w3": F(1, 4), "f1": F(2), "f2": F(3, 8), "f3": F(71, 8)},
+      {"w1": F(1, 16), "w2": F(5, 8), "w3": F(-3, 8), "f1": F(-3, 2), "f2": F(3, 4), "f3": F(83, 8)},
+      {"w1": F(7, 8), "w2": F(-5, 4), "w3": F(-1, 8), "f1": F(5, 4), "f2": F(-2), "f3": F(-37, 4)}]
+
+
+def reused_vectors(ctx, pm, cse, sym, state_names, ctl_names, cal0):
+    """one State / one Control object passed to model() again and again, their .data overwritten in place between the calls"""
+    def rows(vec):
+        return {tr.RENAME.get(str(a), str(a)): i for i, a in enumerate(type(vec)._arglist)}
+
+    def write(vec, vals):
+        r = rows(vec)
+        for n, v in vals.items():
+            vec.data[r[n], 0] = float(v)
+
+    def call(label, dt, st, ct):
+        # the oracle's inputs are what the two vectors hold now, read through their public .data column
+        pt = dict(cal0)
+        for vec in (st, ct):
+            for n, v in fk.by_name(vec).items():
+                pt[tr.RENAME.get(n, n)] = F(v)
+        pt["dt"] = dt
+        case = {"cse": cse, "reused_vectors": label, "point": {k: core.frac_str(v) for k, v in pt.items()}}
+        ctx.case(case, True); ctx.count("reused_vector_call"); ctx.traces += 1
+        with fk.quiet():
+            got_raw = fk.by_name(pm.model(float(dt), st, ct))
+        got = {tr.RENAME.get(k, k): v for k, v in got_raw.items()}
+        want = spec(pt)
+        sc = max(abs(float(v)) for v in want.values())
+        bad = [k for k in want if not core.close(got.get(k, float("nan")), want[k], scale=sc)]
+        if bad:
+            kind = {"a": "acceleration", "v": "velocity", "x": "position", "o": "orientation"}.get(bad[0][0], "rates")
+            ctx.fail(f"kinematics:vector-edited-in-place:{kind}", f"{label}: {bad[0]}: compiled model returns {got.get(bad[0])!r}, rigid-body "
+                     f"kinematics of the values the State / Control hold at this call gives {float(want[bad[0]])!r}", case)
+
+    dt = F(1, 64)
+    with fk.quiet():
+        st = pm.State(**{sym(n).name: float(_S0[n]) for n in state_names})
+        ct = pm.Control(**{sym(n).name: float(_U[0][n]) for n in ctl_names})
+    call("first use of both vectors", dt, st, ct)
+    write(ct, _U[1]); ctx.count("control_overwritten_in_place")
+    call("next IMU sample written into the same Control", dt, st, ct)
+    r = rows(st)
+    for n in ("oriw", "orix", "oriy", "oriz"):
+        st.data[r[n], 0] *= 0.5
+    st.data[r["oriy"], 0] *= -1.0
+    st.data[r["v3"], 0] += 1.5
+    ctx.count("state_edited_in_place")
+    call("orientation rescaled and velocity bumped in the same State", F(3, 128), st, ct)
+    write(st, _S1); write(ct, _U[2]); ctx.count("state_edited_in_place"); ctx.count("control_overwritten_in_place")
+    call("both vectors overwritten in place", dt, st, ct)
+    write(ct, _U[3]); ctx.count("control_overwritten_in_place")
+    call("fourth IMU sample written into the same Control", F(1, 32), st, ct)
+    # a default-constructed Control filled through .data BEFORE its first use, then overwritten once more
+    with fk.quiet():
+        ct2 = pm.Control()
+    write(ct2, _U[2]); ctx.count("control_filled_before_first_use")
+    call("Control() filled through .data before its first use", dt, st, ct2)
+    write(ct2, _U[0]); ctx.count("control_overwritten_in_place")
+    call("that Control overwritten in place", dt, st, ct2)
+
 
 def run(ctx):
     try:
@@ -76,6 +151,7 @@ def run(ctx):
     drv = core.Driver()
     pending = []
     pts = []
+    compiled = []
     for _ in range(npts):
         pt = {n: gen.dyadic(ctx.rng, -3, 3) for n in tr.VARS}
         for kq in ("oriw", "coriw"):
@@ -114,6 +190,7 @@ def run(ctx):
         except Exception as e:
             ctx.fail(f"compile-raises:{fk.exc_kind(e)}", f"python.compile of the reference model raises {e!r}"[:300], {"cse": cse})
             continue
+        compiled.append((cse, pm))
         for pt in pts:
             pt = dict(pt, **cal0)
             case = {"cse": cse, "point": {k: core.frac_str(v) for k, v in pt.items()}}
@@ -172,6 +249,14 @@ def run(ctx):
                      f"{got.get(bad[0])!r}, rigid-body kinematics with that calibration gives {float(want[bad[0]])!r}", case)
     except Exception as e:
         ctx.fail(f"compile-raises:{fk.exc_kind(e)}:second", repr(e)[:300], {"second_compile_with_other_calibration": True})
+    # REUSED VECTORS (deterministic, no ctx.rng): a strapdown loop keeps one Control (and often one State) and overwrites its public
+    # .data column for every IMU sample; each call has to return the kinematics of what the vectors hold AT THAT CALL
+    for cse, pm in compiled:
+        try:
+            reused_vectors(ctx, pm, cse, sym, state_names, ctl_names, cal0)
+        except Exception as e:
+            ctx.fail(f"model-call-raises:{fk.exc_kind(e)}:reused-vectors", f"compiled reference model with vectors edited in place raises {e!r}"[:300],
+                     {"cse": cse, "reused_vectors": True})
     ans = drv.run()
     for idx, got, case in pending:
         a = ans[idx]
